@@ -30,7 +30,7 @@ N_ = "contracts.batch_native"
 KNOWN = {"C02-1": ("batch-shape:*:r=1", "resolution = 1"), "C02-2": ("batch-shape:*:no-activations", "no activation"),
          "C02-3": ("batch-shape:*:scalar-degrees", "only input-independent degrees")}
 def RP(cls=None):
-    kw = {"budget": 60}
+    kw = {"budget": 60, "skip_classes": [] if cls else [v[0] for v in KNOWN.values()]}       # a fallback search looks for something NEW: not in the region of a listed finding
     if cls:
         kw["only_class"] = cls
     return {"replay": {"module": N_, "func": "replay_batch", "kwargs": kw, "vars": {}}}
